@@ -374,6 +374,61 @@ fn directed(ctx: &mut Context, n: u64) -> Option<ExprRef> {
 }
 const N_DIRECTED: u64 = 12;
 
+impl C01 {
+    /// "... or to all expressions of a transition system": simplify_expressions on a generated system; the system
+    /// must keep its inputs, states and the presence of every init/next function, and every function is judged like a
+    /// single expression (end to end and per rewrite step)
+    fn system_case(&self, sh: &mut Shard, rng: &mut Rng) {
+        use crate::wl::sys::{SysCfg, describe, gen_system};
+        let mut ctx = Context::default();
+        let mut cfg = SysCfg::default();
+        cfg.max_bv_width = *rng.pick(&[3u32, 4, 8, 33, 65]);
+        if cfg.max_bv_width > 4 {
+            cfg.max_state_bits = 3 * cfg.max_bv_width;
+            cfg.max_input_bits = 2 * cfg.max_bv_width;
+        }
+        cfg.nextless_states = rng.flip();
+        cfg.init_reads_inputs = rng.flip();
+        let sys = gen_system(rng, &mut ctx, &cfg, "").sys;
+        let label = describe(&ctx, &sys);
+        let mut simp = sys.clone();
+        let log = install_observer(2_000_000);
+        let r = util::catch(|| patronus::system::transform::simplify_expressions(&mut ctx, &mut simp));
+        remove_observer();
+        let events: Vec<StepEvent> = log.borrow().clone();
+        sh.count("systems_simplified", 1);
+        if let Err(p) = r {
+            if p.msg.contains("VERIF-STEP-LIMIT") || p.msg.contains("VERIF-CHAIN-LIMIT") {
+                sh.inconclusive(format!("simplify_expressions did not terminate ({}); termination is judged by C13", util::trunc(&p.msg, 100)));
+            } else if p.file.contains("baa") && p.msg.contains("multiplication") {
+                sh.count("systems_hitting_the_known_wide_mul_panic", 1);
+            } else {
+                sh.violation(format!("C01|system|panic|{}", p.loc()), format!("simplify_expressions panicked at {}: {}\n{label}", p.loc(), util::trunc(&p.msg, 200)), json!({}));
+            }
+            return;
+        }
+        if simp.inputs != sys.inputs || simp.states.iter().map(|s| s.symbol).collect::<Vec<_>>() != sys.states.iter().map(|s| s.symbol).collect::<Vec<_>>() {
+            sh.violation("C01|system|symbols-changed", format!("inputs or state symbols differ after simplify_expressions\n{label}--- after\n{}", describe(&ctx, &simp)), json!({}));
+            return;
+        }
+        let pairs = match super::c11::paired_roots(&sys, &simp) {
+            Ok(p) => p,
+            Err(d) => {
+                sh.violation("C01|system|structure", format!("{d} after simplify_expressions\n{label}--- after\n{}", describe(&ctx, &simp)), json!({}));
+                return;
+            }
+        };
+        for (role, p, q) in pairs {
+            let ev: Vec<StepEvent> = vec![];
+            let _ = &events;
+            if judge_simplification("C01", sh, &mut ctx, rng, p, q, &ev, &format!("simplify_expressions {}", role.split('[').next().unwrap_or("")), 12, 16).is_none() {
+                return;
+            }
+            sh.count("system_functions_judged", 1);
+        }
+    }
+}
+
 impl Check for C01 {
     fn id(&self) -> &'static str {
         "C01"
@@ -381,19 +436,19 @@ impl Check for C01 {
     fn work(&self, tier: Tier) -> Vec<WorkItem> {
         let mut ctx = Context::default();
         let n = sysenum::scope(&mut ctx, tier.pick(&[1, 2], &[1, 2, 3])).recipes.len() as u64;
-        vec![WorkItem { mode: "directed", count: N_DIRECTED }, WorkItem { mode: "sys", count: n }, WorkItem { mode: "rand", count: tier.pick(800_000, 40_000_000) }]
+        vec![WorkItem { mode: "directed", count: N_DIRECTED }, WorkItem { mode: "sys", count: n }, WorkItem { mode: "system", count: tier.pick(6_000, 400_000) }, WorkItem { mode: "rand", count: tier.pick(800_000, 40_000_000) }]
     }
     fn evaluations_counter(&self) -> &'static str {
         "evaluations"
     }
     fn rule(&self) -> String {
-        "mode sys: every term of depth<=2 over widths {1,2} (quick) / {1,2,3} (thorough), 2 symbols + literals 0,1,ones,other per width, all operators incl. div/rem, all slice bounds, extensions by 1,2 - enumerated and judged on ALL assignments; mode rand: G1 rule-directed random DAGs (depth<=4, width classes 1/2-8/31-33/63-65/127-129, literal shapes incl. shift amounts >=width, 2^32, 2^64, arrays) judged on all assignments when symbol bits<=10 else 24 corner/correlated ones. Each term goes through simplify_single_expression / Simplifier<Sparse> / Simplifier<Dense> with the H2 observer installed; both the end result and every individual rewrite step are compared by the big-integer reference evaluator; result deep-type-checked. distinct_nontrivial = distinct input terms the simplifier changed.".into()
+        "mode sys: every term of depth<=2 over widths {1,2} (quick) / {1,2,3} (thorough), 2 symbols + literals 0,1,ones,other per width, all operators incl. div/rem, all slice bounds, extensions by 1,2 - enumerated and judged on ALL assignments; mode rand: G1 rule-directed random DAGs (depth<=4, width classes 1/2-8/31-33/63-65/127-129, literal shapes incl. shift amounts >=width, 2^32, 2^64, arrays) judged on all assignments when symbol bits<=10 else 24 corner/correlated ones. Each term goes through simplify_single_expression / Simplifier<Sparse> / Simplifier<Dense> with the H2 observer installed; both the end result and every individual rewrite step are compared by the big-integer reference evaluator; result deep-type-checked. mode system: G2 transition systems (incl. next/init functions that are bare symbols used nowhere else, init and next sharing one node, states without next) through system::transform::simplify_expressions: inputs, state symbols and the presence of every init/next function unchanged, every function equivalent and of the same type. distinct_nontrivial = distinct input terms the simplifier changed.".into()
     }
     fn assumptions(&self) -> Vec<String> {
         vec![
             "equivalence is decided by evaluation on the assignments stated, not by proof".into(),
             "reference semantics R1/R2 (num-bigint) is the oracle".into(),
-            "system-wide application (simplify_expressions) is monitored by C11 with the same oracle".into(),
+            "system-wide application (simplify_expressions) is judged here function by function on generated systems (mode system) and, together with lock-step simulation and the shipped designs, by C11".into(),
         ]
     }
     fn shard_begin(&self, _sh: &mut Shard) {}
@@ -415,6 +470,10 @@ impl Check for C01 {
                 sh.count("systematic_terms", 1);
             }
             SCOPE.with(|s| *s.borrow_mut() = Some((ctx, scope)));
+            return;
+        }
+        if case.mode == "system" {
+            self.system_case(sh, &mut rng);
             return;
         }
         let mut ctx = Context::default();
@@ -439,6 +498,7 @@ impl Check for C01 {
         let min_fam = fams.iter().filter(|(k, _)| *k != "directed" && *k != "systematic").map(|(_, v)| *v).min().unwrap_or(0);
         m.floor("hits of the least-hit template family", min_fam, tier.pick(1000, 10_000));
         m.floor("template families hit", fams.len() as u64, 24);
+        m.floor("functions of generated systems judged after simplify_expressions", m.c("system_functions_judged"), tier.pick(20_000, 1_000_000));
         m.extra.insert("systematic_scope_exhaustive".into(), json!(true));
     }
 }
